@@ -212,8 +212,9 @@ pub fn run(e: &'static Engine) {
     let mut jobs: Vec<Job> = Vec::new();
     for _ in 0..shards {
         jobs.push(Box::new(move |jc: &mut JobCtx| {
-            let strat = (0usize..2, 100usize..2900, 0usize..3, any::<u16>(), any::<u8>()).prop_flat_map(|(base, len, intr_class, pos, where_)| {
-                // keep inside V40-L capacity of the resulting class (byte: 2953)
+            let strat = (0usize..2, prop_oneof![3 => 100usize..2900, 2 => 2900usize..4400, 1 => 4400usize..7200], 0usize..3, any::<u16>(), any::<u8>()).prop_flat_map(|(base, len, intr_class, pos, where_)| {
+                // lengths up to beyond the V40-L capacity of every class (Numeric 7089, Alphanumeric 4296, Byte 2953): an input
+                // that exceeds the capacity of its most compact mode must be refused with the documented error, a shorter one built
                 (vec(class_byte(base), len), class_byte(intr_class)).prop_map(move |(mut s, b)| {
                     let p = match where_ % 4 {
                         0 => 0,
